@@ -69,7 +69,7 @@ def make_plan(run_seed: int, profile: Dict[str, Any]) -> Dict[str, Any]:
         if not any("<" in t or ">" in t for alts in og.canonical(grammar).values() for alt in alts for t in alt if not og.is_nt(t)):
             break
     n_constraints = rng.choice([1, 1, 1, 2])
-    formulas = [gen_formula(grammar, rng) for _ in range(n_constraints)]
+    formulas = [gen_formula(grammar, rng, family) for _ in range(n_constraints)]
     gfmt = rng.choice(["bnf", "bnf", "py", "arg"])
     # each constraint goes to a .isla file or a -c argument
     cfmt = [rng.choice(["file", "file", "arg"]) for _ in formulas]
